@@ -73,18 +73,6 @@ def _power_axioms(k):
     return z3.And(pw(0) == 1, z3.ForAll([j], z3.Implies(j >= 0, z3.And(pw(j + 1) == pw(j) * k, pw(j) >= 1)), patterns=[pw(j)]))
 
 
-def _ext_normalize_split_every(ex, st, args, kwargs, node):
-    """_normalize_split_every(split_every, axis): the canonical {axis: k} form with k >= 2 (integers are clamped to 2;
-    a user-supplied dict value of 1 -- no reduction along that axis per layer -- is outside this specialisation)"""
-    import z3
-    from pyvc.spec import MapV, Opt
-    k = ex.fresh_int("k")
-    st.pc.append(k >= 2)
-    st.pc.append(_power_axioms(k))
-    st.env["__k__"] = Opt(False, k)
-    return MapV.empty("int").set(z3.IntVal(0), Opt(False, k))
-
-
 def _ext_opaque(ex, st, args, kwargs, node):
     """partial / compose / funcname / sorted of task callables and names: some value (never inspected)"""
     return ex.fresh_value("obj:Fn", "fn")
@@ -111,20 +99,23 @@ def _assume_depth(ex, st, val):
     pw = _pw()
     n = S.as_int(st.env["n"])
     v = S.as_int(val)
+    k = S.as_int(st.env["split_every"].get(z3.IntVal(0)))
+    st.pc.append(_power_axioms(k))  # definition of the ghost function k ** j (a definitional extension, not an assumption)
     st.pc.append(pw(z3.If(v > 1, v, 1)) >= n)
 
 
 @contract(f"{RED}::_build_tree_reduce_expr", spec="r1-keepdims", props=["C18"])
 class build_tree_reduce:
-    """a reduction over the one axis of a rank-1 array with n >= 1 blocks and group size k >= 2: after the depth - 1
+    """a reduction over the one axis of a rank-1 array with n >= 1 blocks (integer split_every; the group size k >= 2 comes
+    from _normalize_split_every's own contract, used modularly): after the depth - 1
     partial layers and the aggregate layer the reduced axis has exactly one block -- so the tree's shape (fan-in, depth)
     never leaves partial results uncombined.  Uses the nested-ceiling lemma ceil(ceil(n/a)/b) = ceil(n/(a*b))."""
-    params = {"x": "obj:Arr", "aggregate": "obj:Fn", "axis": "tup:int", "keepdims": "const", "dtype": "obj:Fn", "split_every": "obj:Fn",
+    params = {"x": "obj:Arr", "aggregate": "obj:Fn", "axis": "tup:int", "keepdims": "const", "dtype": "obj:Fn", "split_every": "int",
               "combine": "obj:Fn", "name": "obj:Fn", "concatenate": "const", "reduced_meta": "obj:Fn"}
     consts = {"keepdims": True, "concatenate": False}
     fields = {"Arr": {"numblocks": "tup:int"}, "Fn": {}}
     result = None
-    externals = {"_normalize_split_every": _ext_normalize_split_every, "partial": _ext_opaque, "compose": _ext_opaque,
+    externals = {"partial": _ext_opaque, "compose": _ext_opaque,
                  "funcname": _ext_opaque, "PartialReduce": _ext_partial_reduce}
     havoc = {"math.ceil(math.log(n, split_every[i]))": "int",
              "combine or aggregate": "obj:Fn",
@@ -151,3 +142,34 @@ class build_tree_reduce:
         return {}
 
     loops = {"for#2": Loop(invariant=_inv)}
+
+
+def _ext_config_get(ex, st, args, kwargs, node):
+    """config.get("split_every", 16): some integer"""
+    return ex.fresh_value("int", "config")
+
+
+def _nse(spec, se_type):
+    @contract(f"{RED}::_normalize_split_every", spec=spec, props=["C18"])
+    class normalize_split_every:
+        """the canonical per-axis form: every reduced axis gets a group size of at least 2 (a fan-in of 1 would never
+        reduce the number of blocks), whether split_every was an integer or a per-axis dict"""
+        params = {"split_every": se_type, "axis": "tup:int"}
+        result = "map:int"
+        externals = {"config.get": _ext_config_get}
+        havoc = {"split_every ** (1 / (len(axis) or 1))": "int"} if se_type == "int" else {"split_every or config.get('split_every', 16)": "map:int"}
+        raises = {}
+
+        def requires(split_every, axis):
+            return True
+
+        def ensures(result, split_every, axis):
+            a0 = S.item(axis, 0)
+            return {"every-reduced-axis-has-fan-in-at-least-2": S.And(S.mhas(result, a0), S.as_int(S.mget(result, a0)) >= 2)}
+
+    normalize_split_every.__name__ = "normalize_split_every_" + spec.replace("-", "_")
+    return normalize_split_every
+
+
+NSE1 = _nse("int-r1", "int")
+NSE2 = _nse("dict-r1", "map:int")
